@@ -50,15 +50,33 @@ def tokenize(src):
 
 def fn_source(text, name):
     m = None
-    for m_ in re.finditer(r"\bfn " + re.escape(name) + r"\s*(?:<[^>]*>)?\s*\(", text):
+    for m_ in re.finditer(r"\bfn " + re.escape(name) + r"\s*(?=[<(])", text):
+        e_ = m_.end()
+        if text[e_] == "<":
+            # generic parameters, possibly nested (`T: for<'de> Deserialize<'de>`)
+            depth = 0
+            while True:
+                if text[e_] == "<":
+                    depth += 1
+                elif text[e_] == ">" and text[e_ - 1] != "-":
+                    depth -= 1
+                    if depth == 0:
+                        break
+                e_ += 1
+            e_ += 1
+            while text[e_].isspace():
+                e_ += 1
+            if text[e_] != "(":
+                continue
         # the definition, not a trait's declaration (`fn f(..) -> T;`)
-        a, b = text.find("{", m_.end()), text.find(";", m_.end())
+        a, b = text.find("{", e_), text.find(";", e_)
         if a != -1 and (b == -1 or a < b):
             m = m_
+            mend = e_
             break
     if not m:
         raise TranslateError(f"fn {name} not found")
-    j = text.index("{", m.end())
+    j = text.index("{", mend)
     sig = " ".join(text[m.start():j].split())
     depth, k = 0, j
     while True:
@@ -1012,6 +1030,20 @@ FUNCS = [
          verbatim=[("let Some(dst) = safe_join(root, path) else { return write_frame(w, &Response::Error(\"bad path\".into())); };",
                     "if !safe then\n  return (calls, Copia.Hub.Reply.error \"bad path\")"),
                    ("let current = current_hash(&dst);", "calls := calls ++ [Call.read]\nlet current := cur_dst")]),
+    # ---- wire.rs::read_frame over an in-memory input: what is tested before what is reserved before what is read
+    dict(group="wire", file="src/bin/copia/wire.rs", name="read_frame", sig=None,
+         lean="def readFrame {R : Type} (decode : Copia.Hub.Bytes → Option R) (inp : Copia.Hub.Bytes) : FrameRes R := Id.run do\n"
+              "  -- world: the bytes not yet read (`rest`) and the size of the buffer reserved for the frame body (`alloc`)",
+         idents={"MAX_FRAME": "Copia.Gen.maxFrame"},
+         paths={"u32::from_be_bytes": "Copia.Hub.be32"}, calls={}, strings_plain=True,
+         verbatim=[("let mut lenb = [0u8; 4];", ""),
+                   ("match r.read_exact(&mut lenb) { Ok(()) => {} Err(e) if e.kind() == std::io::ErrorKind::UnexpectedEof => return Ok(None), Err(e) => return Err(e), }",
+                    "if inp.length < 4 then\n  return FrameRes.eof\nlet lenb := inp.take 4\nlet mut rest := inp.drop 4"),
+                   ('return Err(std::io::Error::new( std::io::ErrorKind::InvalidData, "frame exceeds MAX_FRAME", ));', "return FrameRes.tooLarge"),
+                   ("let mut buf = vec![0u8; len as usize];", "let alloc := len"),
+                   ("r.read_exact(&mut buf)?;", "if rest.length < len then\n  return FrameRes.short alloc\nlet buf := rest.take len\nrest := rest.drop len"),
+                   ("from_reader(&buf[..]) .map(Some) .map_err(|e| std::io::Error::new(std::io::ErrorKind::InvalidData, e.to_string()))",
+                    "return (match decode buf with\n  | some req => FrameRes.frame req alloc rest\n  | none => FrameRes.badBody alloc)")]),
     dict(group="hubsync", file="src/bin/copia/hub.rs", fn="hub_sync", sig=None,
          name="hub_sync (the push loop: from the counters to the end of the `for`)",
          slice=("let (mut sent, mut skipped, mut conflicts) = (0u64, 0u64, 0u64);", "hub kept a conflict-copy\");"), slice_close=2,
@@ -1160,6 +1192,7 @@ GROUP_HEAD = {
               "open Copia.Reconcile (lookup dedupAdj)\nopen Copia.LoopSupport\nopen Copia.Bisync (cIns cDel)\nopen Copia.BidirSupport"),
     "hub": ("import Copia.Model.Hub", "open Copia.Hub (Comp components)"),
     "hubsync": ("import Copia.Model.HubSync", ""),
+    "wire": ("import Copia.Model.Hub\nimport Copia.Model.WireSupport", "open Copia.WireSupport (FrameRes)"),
     "hubput": ("import Copia.Model.HubTrace\nimport Copia.Model.Hub", "open Copia.HubConc (Call Chunk Hash)"),
     "deliver": ("import Copia.Model.Deliver", "open Copia.Deliver (DStep)"),
     "crash": ("import Copia.Model.Crash", "open Copia.Crash (Side FsStep)"),
@@ -1167,7 +1200,7 @@ GROUP_HEAD = {
               "open Copia.Delta Copia.DeltaSupport\nopen Copia.Checksum (Fast)"),
 }
 
-GROUPS = {"reconcile": "LoopsReconcile.lean", "plan": "LoopsPlan.lean", "bidir": "LoopsBidir.lean", "delta": "LoopsDelta.lean", "hub": "LoopsHub.lean", "hubsync": "LoopsHubSync.lean", "hubput": "LoopsHubPut.lean", "crash": "LoopsCrash.lean", "deliver": "LoopsDeliver.lean"}
+GROUPS = {"reconcile": "LoopsReconcile.lean", "plan": "LoopsPlan.lean", "bidir": "LoopsBidir.lean", "delta": "LoopsDelta.lean", "hub": "LoopsHub.lean", "hubsync": "LoopsHubSync.lean", "hubput": "LoopsHubPut.lean", "wire": "LoopsWire.lean", "crash": "LoopsCrash.lean", "deliver": "LoopsDeliver.lean"}
 
 
 def translate(group):
